@@ -642,6 +642,7 @@ def one_failure(res, fam, vi, mode, k, name, kind, t, pre, verbose=False, tool="
     spec = spec_f(fam, vi, mode, k, name, kind, t, pre)
     what = "%s/%s [%s -k %d] %s of %s, target %r, after '%s'" % (fam.id, fam.descs[vi].id, mode, k, kind, name, t, " ".join(pre))
     kg = "-keep-going" if k == 0 else ""
+    nodb = "" if mode_db(mode) else "-nodb"     # without a database nothing remembers the failure: a class of its own
 
     def add(cls, text):
         if tool == "llbuild":
@@ -683,7 +684,7 @@ def one_failure(res, fam, vi, mode, k, name, kind, t, pre, verbose=False, tool="
             show(label, o)
             if name not in o["ran"]:
                 if must_run:
-                    add("C18.failed-not-retried-" + edge_kind(m, m.edge(name)), "%s: %s failed in the previous build but was not "
+                    add("C18.failed-not-retried-" + edge_kind(m, m.edge(name)) + nodb, "%s: %s failed in the previous build but was not "
                         "executed again by the next build (ran: %s)" % (what, name, ",".join(o["ran"]) or "none"))
                 return o, False
             if o["rc"] == 0:
@@ -716,7 +717,7 @@ def one_failure(res, fam, vi, mode, k, name, kind, t, pre, verbose=False, tool="
         res.count("builds")
         show("build after repair", o3)
         if name not in o3["ran"]:
-            add("C18.failed-not-retried-" + edge_kind(m, m.edge(name)), "%s: after the repair the build did not execute %s again "
+            add("C18.failed-not-retried-" + edge_kind(m, m.edge(name)) + nodb, "%s: after the repair the build did not execute %s again "
                 "(ran: %s)" % (what, name, ",".join(o3["ran"]) or "none"))
         if tool != "llbuild":
             return
